@@ -96,9 +96,10 @@ func (d *uripostDecoder) Scan(ctx context.Context) (DecodedAmmo, error) {
 // readBlock read one header at time and set to commonHeader or read full request
 func (d *uripostDecoder) readBlock(reader *bufio.Reader, commonHeader http.Header) (*ammo.Ammo, error) {
 	data, err := reader.ReadString('\n')
-	if err != nil {
+	if err != nil && (err != io.EOF || len(data) == 0) {
 		return nil, err
 	}
+	// io.EOF with data means last line of file without final newline.
 	data = strings.TrimSpace(data)
 	if len(data) == 0 {
 		return nil, nil // skip empty lines
